@@ -131,13 +131,15 @@ FIXED = {
  "fs:unknown-upload-code": "4609ab3", "fs:list-parts-unknown-upload": "4609ab3",
  "fs:part-number-not-validated": "205d9a8",
  "fs:stale-checksum-after-complete": "47e9b00", "fs:stale-metadata-after-complete": "47e9b00",
+ "fs:stale-checksum-after-copy": "aa68bb7", "fs:stale-metadata-after-copy": "aa68bb7",
 }
 # repairs whose text says explicitly that it describes the code before the repair
 BEFORE = {"fs:head-missing-key-code", "fs:delete-missing-key-error", "fs:missing-bucket-reported-as-missing-key",
           "fs:delete-objects-in-missing-bucket", "fs:head-without-etag",
           "fs:complete-missing-part-internal-error", "fs:failed-complete-consumes-upload",
           "fs:unknown-upload-code", "fs:list-parts-unknown-upload", "fs:part-number-not-validated",
-          "fs:stale-checksum-after-complete", "fs:stale-metadata-after-complete"}
+          "fs:stale-checksum-after-complete", "fs:stale-metadata-after-complete",
+          "fs:stale-checksum-after-copy", "fs:stale-metadata-after-copy"}
 
 lines, findings = [], []
 for i, (cls, ops, what) in enumerate(W, 1):
